@@ -32,6 +32,11 @@ CHECKS = {
    text="TLC checks Terminates, FewSteps, Bracket, Post, Ends, Monotone and RunAgrees for every non-decreasing table on a 2^P grid, every target and tolerances below the table's resolution (the unreachable-tolerance regime); ~350 real runs (8 segment shapes and 3 paths x scales 1e-3..1e6 x 9 targets incl. 0, L and near-ends, scipy and no-scipy) are recorded by wrapping length() and must be accepted by the trace spec (each probe = midpoint of the dyadic bracket, or the float-resolution stall followed by the return); results are compared with s/L on constant-speed curves, checked for monotonicity, the post-condition and ValueError outside [0,L].",
    note="Trusted: TLC; the recorder (harness-side wrapper of length(), no source hook). Post-condition slack max(s_tol, 1e-11 L). Without scipy only scales <= 1 (the fallback integrator needs seconds per call at 1e6).",
    ref="4 (C07), 3.10"),
+ 'C09': dict(
+   technique="TLA+ lattice models (Bezier.tla split/reverse identities, ArcLattice.tla Reverse/Crop, TParam.tla) model-checked with TLC; the model's exact split control points and lattice crops replayed through reversed/split/cropped of segments and paths",
+   text="TLC checks SplitReparam, SplitMeets, RevIdentity on the bi-degree unisolvent grid, ReverseOK and CropOK for every lattice arc and step pair, and the T-parameter invariants; every paired control-vector case is replayed: split(t) control points (exact), reversed() (exact), cropped(t0,t1) for all dyadic t0<t1 by points (1e-9) incl. fold-back collinear and self-crossing curves; lattice arcs reversed/split/cropped at 15-degree steps on both sides of 180 degrees (1e-6); paths: open chains, closed polygons with wrap-around crops, crop points on joints and paths traversing an equal segment twice - start/end points, joined pieces, length = length(T0,T1), closed-form values on polylines.",
+   note="Trusted: TLC; exactness of float arithmetic on the dyadic integer lattice. Path crops on curved segments are compared with Path.length(T0,T1) (the property's own oracle), closed forms only on polylines.",
+   ref="4 (C09), 3.5, 3.6, 3.8"),
  'C10': dict(
    technique="TLA+ models of SVG transform lists as integer affine matrices (Affine.tla) and of the joint re-joining pass (Rejoin.tla) model-checked with TLC; every product matrix and every joint pattern replayed through the real translated/rotated/scaled/transform",
    text="TLC checks list = product, associativity, multiplicative determinant, rotate-about-centre, and affine invariance of Bezier evaluation for every list of <= 3 of 14 operations, and JointsKept (incl. the closing joint) for every joint pattern with independently rounded images; all ~200 distinct product matrices are applied with transform() to lattice Beziers (1e-12) and lattice arcs (1e-6) and image.point(t) is compared with M(point(t)); translated / rotated (default and explicit origins, angles incl. 390) / scaled (2, 1/2, -1, -3, 1/3; non-uniform on Beziers; arcs must refuse or be right); every joint pattern of <= 4 segments (L / Q / C / A mixes) is mapped with rounding-prone factors and joints that coincided must coincide exactly, closed paths stay closed.",
